@@ -16,6 +16,13 @@ enum Which {
     C13,
 }
 
+thread_local! {
+    static LABEL: std::cell::RefCell<&'static str> = const { std::cell::RefCell::new("") };
+}
+fn set_label(l: &'static str) {
+    LABEL.with(|x| *x.borrow_mut() = l);
+}
+
 fn real_eval(e: &Expression, v: &Vars, m: &Memo) -> Option<C> {
     e.evaluate(v, m).ok()
 }
@@ -38,10 +45,13 @@ fn check(which: Which, ex: &Ex, pts: &[(Vars, Memo)]) -> Vec<(String, String)> {
                     Err(_) => out.push(("reparse".to_string(), format!("`{txt}` does not parse"))),
                     Ok(e2) => {
                         let ex2 = Ex::from_expr(&e2);
+                        let mut compared = 0;
+                        set_label(if ex2 == *ex { "reparsed-identical-structure" } else { "reparsed-different-structure" });
                         for (v, m) in pts {
                             if gev(ex, v, m).is_none() || gev(&ex2, v, m).is_none() {
                                 continue;
                             }
+                            compared += 1;
                             if let (Some(a), Some(b)) = (real_eval(&e, v, m), real_eval(&e2, v, m)) {
                                 if a.is_finite() && !((a - b).norm() <= 1e-12 * (1.0 + a.norm())) {
                                     out.push(("value".to_string(), format!("`{txt}` evaluates to {b}, the original to {a}")));
@@ -51,6 +61,9 @@ fn check(which: Which, ex: &Ex, pts: &[(Vars, Memo)]) -> Vec<(String, String)> {
                                 out.push(("value".to_string(), format!("`{txt}`: re-parsed expression does not evaluate where the original does")));
                                 break;
                             }
+                        }
+                        if compared == 0 {
+                            set_label("no-comparable-point(degenerate-or-nonfinite)");
                         }
                     }
                 }
@@ -63,6 +76,7 @@ fn check(which: Which, ex: &Ex, pts: &[(Vars, Memo)]) -> Vec<(String, String)> {
                     out.push(("simplify-vs-into_simplified".to_string(), format!("{} vs {}", s2.to_quil_or_debug(), s.to_quil_or_debug())));
                 }
                 let sx = Ex::from_expr(&s);
+                set_label(if sx == *ex { "unchanged" } else if matches!(sx, Ex::Num(..)) { "folded-to-number" } else if sx.size() < ex.size() { "smaller" } else { "rewritten-same-or-larger" });
                 if sx.has_pi() {
                     out.push(("returns-pi".to_string(), format!("simplified form {} contains pi", sx.show())));
                 }
@@ -93,6 +107,12 @@ fn check(which: Which, ex: &Ex, pts: &[(Vars, Memo)]) -> Vec<(String, String)> {
                 // memory references = address leaves (as multisets, and in left-to-right order as a set of positions)
                 let mut want = vec![];
                 ex.addrs(&mut want);
+                set_label(match (want.is_empty(), { let mut v = vec![]; ex.vars(&mut v); v.is_empty() }) {
+                    (true, true) => "closed",
+                    (true, false) => "variables-only",
+                    (false, true) => "memory-only",
+                    (false, false) => "variables-and-memory",
+                });
                 let mut got: Vec<(String, u64)> = e.memory_references().map(|r| (r.name.clone(), r.index)).collect();
                 let mut w2 = want.clone();
                 got.sort();
@@ -172,11 +192,13 @@ fn id_of(w: Which) -> &'static str {
 }
 
 fn eval_case(ctx: &mut Ctx, which: Which, ex: &Ex, pts: &[(Vars, Memo)], shrinks: &mut usize) {
+    set_label("");
     let vs = check(which, ex, pts);
     if ex.has_compound() {
         ctx.nontrivial(&ex.show());
     }
-    ctx.outcome(if vs.is_empty() { "ok" } else { "violating" });
+    let label = LABEL.with(|x| *x.borrow());
+    ctx.outcome(if !vs.is_empty() { "violating" } else if label.is_empty() { "ok" } else { label });
     let id = id_of(which);
     let mut seen = std::collections::BTreeSet::new();
     for (clause, detail) in vs {
